@@ -953,11 +953,16 @@ class Engine:
             K = len(elems) if elems is not None else self.policy.unroll
             site = self.site(stmt, fi)
             frontier = [s0]
+            # `for i in range(N)` with a symbolic N: the number of iterations taken is a decision about N
+            bound = it[2][0] if elems is None and it[0] == "call" and it[1] == ("ext", "range") and len(it[2]) == 1 \
+                and not it[3] else None
             for n in range(K + 1):
                 # exit after n iterations
                 if elems is None or n == len(elems):
                     for s in frontier:
                         sx = s.copy()
+                        if bound is not None:
+                            sx.conds.append((("cmp", "<=", bound, const(n)), True, stmt, fi))
                         # leaving a for loop after n iterations is a complete execution for an iterable
                         # of n elements (only cut `while` loops are marked truncated)
                         if stmt.orelse:
@@ -971,6 +976,9 @@ class Engine:
                     s1 = s.copy()
                     s1.loopdepth += 1
                     s1.env["$iter"] = (s.env.get("$iter") or ()) + ((stmt.lineno, n),)
+                    if bound is not None:
+                        s1.conds = [c for c in s1.conds if not (c[2] is stmt and c[0][2] == bound)]
+                        s1.conds.append((("cmp", ">", bound, const(n)), True, stmt, fi))
                     el = elems[n] if elems is not None else ("elem", it, site, n)
 
                     def bind(sb, ch, el=el):
